@@ -736,24 +736,23 @@ def printer_transitions(w):
                         seqtasks.append((b.id, i, K, prev, x0))
     _PT.update(w=w, se=se, elig=elig)
     out, failed, seqs = {}, [], {}
-    ctx = mp.get_context('fork')
-    with ctx.Pool(min(14, os.cpu_count() or 4)) as pool:
-        for task, res in pool.imap_unordered(_pt_task, tasks, chunksize=1):
-            if res is None:
-                failed.append((w.bodies[task[0]].short,) + task[2:])
-                continue
-            for k, v in res.items():
-                out.setdefault((w.bodies[task[0]].short,) + k, set()).update(v)
-        for task, modes in pool.imap_unordered(_pt_seq, seqtasks, chunksize=1):
-            seqs[(w.bodies[task[0]].short, task[2], task[3], task[4])] = modes
-        passkids = {}
-        for task, res in pool.imap_unordered(_pt_task, ptasks, chunksize=1):
-            fn = w.bodies[task[0]].short
-            if res is None:
-                failed.append((fn,) + task[2:])
-                continue
-            for (K, m_in, cond, X), v in res.items():
-                passkids.setdefault((fn, K, X), set()).update(x[1] for x in v if x[0] is not None)
+    from parmap import parmap
+    for task, res in parmap(_pt_task, tasks):
+        if res is None:
+            failed.append((w.bodies[task[0]].short,) + task[2:])
+            continue
+        for k, v in res.items():
+            out.setdefault((w.bodies[task[0]].short,) + k, set()).update(v)
+    for task, modes in parmap(_pt_seq, seqtasks):
+        seqs[(w.bodies[task[0]].short, task[2], task[3], task[4])] = modes
+    passkids = {}
+    for task, res in parmap(_pt_task, ptasks):
+        fn = w.bodies[task[0]].short
+        if res is None:
+            failed.append((fn,) + task[2:])
+            continue
+        for (K, m_in, cond, X), v in res.items():
+            passkids.setdefault((fn, K, X), set()).update(x[1] for x in v if x[0] is not None)
     _PT.clear()
     kinds_of_fn = {b.short: kinds for b, i, kinds in _all_converters(w, se)}
     result = (out, evaluated, passthrough, failed, seqs, passkids, kinds_of_fn)
